@@ -19,6 +19,13 @@ import (
 	"seehuhn.de/go/pdf/verif/internal/vt"
 )
 
+// FindingSparseXRef is the id of the known finding "the Reader rejects a
+// cross-reference stream written by the Writer when the object numbers are
+// sparse": limits.MaxXRefEntries allows 8192 + 32 entries per byte of the
+// compressed stream, and a table of mostly free entries compresses far
+// better than that.
+const FindingSparseXRef = "C02-sparse-xref-stream"
+
 // Versions lists the nine PDF versions.
 var Versions = []pdf.Version{pdf.V1_0, pdf.V1_1, pdf.V1_2, pdf.V1_3, pdf.V1_4, pdf.V1_5, pdf.V1_6, pdf.V1_7, pdf.V2_0}
 
@@ -39,6 +46,9 @@ type Program struct {
 	PagesLate     bool      `json:"pages_late,omitempty"` // write the /Pages object last
 	MetaTitle     string    `json:"meta_title,omitempty"` // document-level XMP metadata (dc:title); "" = none
 	MetaPlain     bool      `json:"meta_plain,omitempty"` // MetadataStream.Plaintext
+	// SparseCapped counts the explicit references whose distance was cut
+	// down because of the open known finding C02-sparse-xref-stream.
+	SparseCapped int `json:"sparse_capped,omitempty"`
 	Actions       []Action  `json:"actions"`
 }
 
@@ -721,7 +731,13 @@ func Gen(o Opts) *rapid.Generator[Program] {
 				a.Pre = rapid.IntRange(0, 7).Draw(t, "pre")
 			case 1:
 				a.RefKind = "explicit"
-				a.Delta = rapid.SampledFrom([]uint32{1, 2, 7, 100, 3000}).Draw(t, "delta")
+				a.Delta = rapid.SampledFrom([]uint32{1, 2, 7, 100, 3000, 1, 2, 7, 100, 3000, 70000}).Draw(t, "delta")
+				if a.Delta > 8000 && v >= pdf.V1_5 && !p.HumanReadable && vt.FindingOpen(FindingSparseXRef) {
+					// the file would get a cross-reference stream with more
+					// entries than the reader's budget for its size allows
+					a.Delta = 3000
+					p.SparseCapped++
+				}
 				a.Gen = rapid.SampledFrom([]uint16{0, 0, 1, 7, 65535}).Draw(t, "gen")
 			default:
 				a.RefKind = "alloc"
@@ -1030,4 +1046,27 @@ func (p *Program) ScrubNames() {
 		}
 	}
 	walk(p.Actions)
+}
+
+// CapSparse cuts explicit object-number distances down to 3000 when the
+// program will be written with a cross-reference stream (see
+// FindingSparseXRef).  It returns the number of references changed.
+func (p *Program) CapSparse() int {
+	if Versions[p.Version] < pdf.V1_5 || p.HumanReadable {
+		return 0
+	}
+	n := 0
+	var walk func(as []Action)
+	walk = func(as []Action) {
+		for i := range as {
+			if as[i].Delta > 8000 {
+				as[i].Delta = 3000
+				n++
+			}
+			walk(as[i].During)
+		}
+	}
+	walk(p.Actions)
+	p.SparseCapped += n
+	return n
 }
